@@ -106,7 +106,15 @@ def r09_2(facts, res):
                     st["instances"] += 1
                     short = n.split("::")[-1]
                     if (f["path"], short) in XF.DISALLOWED_OK:
-                        res.oblige(1, True)
+                        # the reason covers the conversion to f64 only: an integer type has no negative zero, no fraction
+                        # and a bounded range, so `parse::<i64>` first and f64 as the fallback changes "-0" and large values
+                        inst = str(c.get("pathargs", ""))
+                        okp = short != "parse" or inst.endswith("::<f64>") or "::<" not in inst.split("parse")[-1]
+                        res.oblige(1, okp)
+                        if not okp:
+                            res.add(Finding("R09-2", "%s|parse-as-%s" % (f["path"], inst.split("::<")[-1].rstrip(">")),
+                                            "%s parses an XPath number as %s: integers have no negative zero and a bounded range (XPath numbers are IEEE doubles)"
+                                            % (f["path"], inst.split("::<")[-1].rstrip(">")), f["file"], t.get("ln"), {}))
                         break
                     res.oblige(1, False)
                     res.add(Finding("R09-2", "%s|%s" % (f["path"], short), "%s calls %s on an XPath value: %s" % (f["path"], n, why),
@@ -122,6 +130,32 @@ def r09_2(facts, res):
                                     % (f["path"], m["ty"]), f["file"], f["line"], {}))
     if st["functions"] < 48:
         raise BrokenCheck("R09-2: %d evaluator functions scanned (floor 48)" % st["functions"])
+    # translate(): "if a character occurs more than once in the second argument, the first occurrence determines the
+    # replacement".  A keyed map filled from the (from, to) pairs keeps the *last* pair (collect / from_iter / insert / extend);
+    # a search from the back does the same.  `entry(..).or_insert(..)` keeps the first and is accepted.
+    tr = facts.fn("xml_xpath::eval::func::translate")
+    st["instances"] += 1
+    bad = []
+    fam = facts.family(tr)
+    for g in fam + [c for c in facts.fns.values() if c.get("parent") in {x["path"] for x in fam}]:
+        for bi, t in facts.mir_calls(g):
+            c = t.get("callee")
+            if not c:
+                continue
+            n = facts.callee_name(c)
+            inst = str(c.get("pathargs", ""))
+            last = n.split("::")[-1]
+            if last in ("collect", "from_iter", "extend") and re.search(r"collections::(HashMap|BTreeMap|hash_map::HashMap|btree_map::BTreeMap)<", inst.rsplit("::" + last + "::<", 1)[-1] if last == "collect" else inst):
+                bad.append((n, t.get("ln"), "fills a keyed map from the character pairs: the last occurrence wins"))
+            elif re.search(r"collections::(HashMap|BTreeMap)::<.*>::insert$|collections::(hash_map::)?HashMap<.*>::insert$|BTreeMap<.*>::insert$", n + "|" + inst) or \
+                    (last == "insert" and re.search(r"(HashMap|BTreeMap)", n)):
+                bad.append((n, t.get("ln"), "insert overwrites the pair of an earlier occurrence"))
+            elif last in ("rposition", "rfind", "rev", "last", "max_by_key", "rsplit"):
+                bad.append((n, t.get("ln"), "searches the second argument from the back"))
+    res.oblige(1, not bad)
+    for n, ln, why in bad[:2]:
+        res.add(Finding("R09-2", "translate|first-occurrence", "translate(): %s (%s); XPath 1.0 4.2: the first occurrence of a character in the second "
+                        "argument determines its replacement" % (why, n), tr["file"], ln, {}))
     # number -> string: both zeros print as "0"
     f = facts.fn(STRING_TRY)
     st["instances"] += 1
